@@ -56,7 +56,7 @@ Definition reduce_args (a_start : Z) (a_end : Z) (m_start : Z) (m_offset : Z) (i
   Ok (offset, order, strides, total_buffer_len))).
 
 Definition forward_memmaps (hasobject : bool) (dtype_kind : Z) (max_nbytes : option Z) (nbytes : Z) : result bool :=
-  Ok (((negb (dtype_kind =? (79))) && (match max_nbytes with None => false | Some max_nbytes => (nbytes >? max_nbytes) end))).
+  Ok (((negb hasobject) && (match max_nbytes with None => false | Some max_nbytes => (nbytes >? max_nbytes) end))).
 
 (* numpy 2.4.6 used by the implementation side: hasattr(numpy.ndarray, '__array_prepare__') *)
 Definition numpy_has_array_prepare : bool := false.
